@@ -80,7 +80,14 @@ PROPS = {
     "C13": std("c13", 5000, 100000, procs=True, fuzz=45),
     "C11": std("c11", 20000, 500000, procs=True, fuzz=45),
     "C04": std("c04", 6000, 55000, procs=True, fuzz=45, grid_shards_thorough=16),
-    "C10": std("c10", 20000, 2000000, fuzz=30),
+    "C10": std("c10", 20000, 2000000, fuzz=30, extra=dict(
+        engine="rapid+grid+gofuzz (release build; the quick grid and a shorter random search again with -tags debug)",
+        # the path-word functions carry no contract today; a contract added to them (bmtree's must.Be checks are active with
+        # -tags debug) must not fire on the heights 31 and 32 that this property includes
+        variants=[dict(name="rel"),
+                  dict(name="debug", tags="debug", skip_last=True,
+                       quick=dict(prop=5000, prop_shards=1, grid_shards=1, timeout=300),
+                       thorough=dict(prop=50000, prop_shards=4, grid_shards=1, timeout=3600))])),
     "C05": std("c05", 20000, 20000, grid_shards_thorough=16, extra=dict(
         engine="exhaustive enumeration + rapid", exhaustive_tiers=["thorough"],
         thorough=dict(prop=20000, prop_shards=1, grid_shards=16, timeout=3600))),
